@@ -50,6 +50,14 @@ def make_case(i, rng, tier):
         if vs:
             return common.with_variants(common.mk_case(rng, inp, inp["data"], []), vs[:400])
     data, recs = inp["data"], []
+    if rng.random() < 0.08:
+        # cooperating faults: one field overruns two, three or more nested regions at once; a fault inside an anticipated one
+        fc = common.nested_chain_fault(rng, inp, o, p_append=0.2) if rng.random() < 0.7 else None
+        if fc is None:
+            f2 = F.fault_nested_pair(data, o, rng)
+            fc = (inp, f2[0], f2[1]) if f2 else None
+        if fc:
+            return common.mk_case(rng, fc[0], fc[1], fc[2])
     n = 2 if rng.random() < 0.1 else 1
     for _ in range(n):
         r = F.fault_size(data, o, rng)
